@@ -31,7 +31,11 @@ func (c09) Plan(tier string) fw.Plan {
 }
 
 func (c09) RunCase(c *fw.Ctx, rng *fw.RNG, batch, i int) {
-	ts := schemagen.Gen(rng, schemagen.Opts{Types: 8 + rng.Intn(7)})
+	ntypes := 8 + rng.Intn(7)
+	if deepCase(c, i) {
+		ntypes = 18 + rng.Intn(10)
+	}
+	ts := schemagen.Gen(rng, schemagen.Opts{Types: ntypes})
 	lib, err := schemagen.ToLibrary(ts)
 	if err != nil {
 		c.Inconclusive("generated type system rejected by the library: " + err.Error())
